@@ -128,7 +128,7 @@ func histories(nfiles int, allRestartMasks bool) []History {
 // EnumFileSets lists the file sets of a tier.
 func EnumFileSets(tier string) (sets []FileSet, rule string, snapshotCases int) {
 	thorough := tier == "thorough"
-	touching, overlapping := 0, 0
+	touching, overlapping, unsorted := 0, 0, 0
 	threeFileQuick := map[string]bool{"tcp4": true, "udp4": true, "reuse-slow": true, "tcp-idle": true, "udp-idle": true, "tcp+udp": true}
 	if thorough {
 		// snapshot sets first: they are the long-running items
@@ -274,6 +274,15 @@ func EnumFileSets(tier string) (sets []FileSet, rule string, snapshotCases int) 
 					}
 					sets = append(sets, FileSet{Files: fc, Hists: histories(3, false)})
 					overlapping++
+					// one of the two overlapping captures is not sorted by time (written newest packet first)
+					if kind == "ovl" && (thorough || k == n-1 || k == 4) {
+						for _, u := range []string{"rev:0", "rev:1"} {
+							uc := fc
+							uc.Unsorted = u
+							sets = append(sets, FileSet{Files: uc, Hists: histories(3, false)})
+							unsorted++
+						}
+					}
 				}
 			}
 		}
@@ -297,6 +306,7 @@ func EnumFileSets(tier string) (sets []FileSet, rule string, snapshotCases int) 
 	rule = "file sets: every conversation set of the menu (default rendering; default interleaving in quick, every permitted interleaving in thorough) cut into two files at every position, " +
 		"plain and with equal timestamps on both sides of the cut; cut into three files (quick: sets tcp4, udp4, tcp+udp, reuse-slow, tcp-idle, udp-idle at every third position pair; thorough: every set, every position pair, default interleaving); " +
 		fmt.Sprintf("every three-file cut also with two of the files touching (equal timestamps across the first or the second cut; %d sets) and, instead of cuts, two overlapping captures (the first k packets alternate singly or in pairs between two files, the rest in a third; %d sets); ", touching, overlapping) +
+		fmt.Sprintf("overlapping captures of which one is written newest packet first (a capture file that is not sorted by time; %d sets); ", unsorted) +
 		"thorough also every rendering with one deviation cut between the two affected packets. histories: every ordered set partition of the files into batches " +
 		"(= every batching x every arrival order) x builder restart between batches (two files: every subset of gaps; three files: none/all, thorough every subset for the six quick sets). " +
 		"After every batch the visible set is compared with the one-call import of the same subset of files. " +
